@@ -518,11 +518,11 @@ def make_history(rng, tid, weights, nops=None, plat=None, **seedkw):
                 op["typ"] = "extended"
             std = op["typ"] == "standard"
         if op["act"] == "SetPlatform":
-            if std:
+            if std and rng.random() < 0.8:      # (a standard list sent to NX-OS is refused and must stay as it is: sometimes tried)
                 op["plat"] = "ios"
             if op.get("plat_spelled") not in {"ios": ["ios", "cisco_ios"], "nxos": ["nxos", "cnx", "cisco_nxos"]}[op["plat"]]:
                 op["plat_spelled"] = op["plat"]        # the spelling follows the (possibly adjusted) platform
-            cur = op["plat"]
+            cur = op["plat"] if not (std and op["plat"] == "nxos") else cur
         if op["act"] == "Permute":
             op["perm"] = []
         ops.append(op)
